@@ -1070,6 +1070,11 @@ def _literal_value(node: ast.AST) -> bool:
 
         if isinstance(node.func, ast.Name) and node.func.id in constants.PURE_BUILTIN_FUNCTIONS:
             args = [literal_value(arg) for arg in node.args]
+            if any(isinstance(arg, int) and abs(arg) > 10_000_000 for arg in args):
+                # pow(2, 10 ** 10), sum(range(10 ** 10)), list(range(10 ** 9)) and so on
+                raise ValueError("Cannot find a value within reasonable time")
+            if isinstance(args[0] if args else None, range) and len(args[0]) > 10_000_000:
+                raise ValueError("Cannot find a value within reasonable time")
             return getattr(builtins, node.func.id)(*args)
 
     return ast.literal_eval(node)
